@@ -1,5 +1,5 @@
 import Driver.Proto
-import GMModel.EMapHeap
+import GMModel.EMapGeo
 /-
   Driver.Heap — op `heapseq`: runs a whole operation sequence of the heap model (C18, C04) and
   reports, after every operation, its outcome and the observation of every handle whose
@@ -172,7 +172,7 @@ def runOp (s : DState) : DOp → DState × String
   | .build r t scale =>
     match s.env[r]?, s.env[t]? with
     | some (.mol rm), some (.mol tm) =>
-      let (E, e) := build (stdGeo scale) s.heap rm tm
+      let (E, e) := build (concreteGeo scale) s.heap rm tm
       let s1 := { s with emap := some E, scale := scale }
       let (s2, d) := deltas s1
       (s2, s!"{errTok e} {equivTok E} {keysTok E} {d}")
@@ -181,7 +181,7 @@ def runOp (s : DState) : DOp → DState × String
     match s.emap with
     | none => (s, "Internal K 0 0")
     | some E =>
-      let r := call (stdGeo s.scale) s.heap E s.env[i]?
+      let r := call (concreteGeo s.scale) s.heap E s.env[i]?
       let env := match r.ret with
         | some m => s.env ++ [.mol m]
         | none => s.env
@@ -192,7 +192,7 @@ def runOp (s : DState) : DOp → DState × String
     match s.emap with
     | none => (s, "Internal K 0 0")
     | some E =>
-      let r := call (stdGeo s.scale) s.heap E none
+      let r := call (concreteGeo s.scale) s.heap E none
       let s1 := { s with heap := r.heap, emap := some r.emap }
       let (s2, d) := deltas s1
       (s2, s!"{errTok r.err} {keysTok r.emap} {d}")
